@@ -212,7 +212,7 @@ def shard(ctx, budget_s, npert):
     across_processes(ctx, 6 if ctx.tier == "quick" else 60)
     n = 0
     while time.time() < deadline or n == 0:
-        cfg = gen.rnd_config(rng, deny=False, logger="n", level=0)
+        cfg = gen.rnd_config(rng, deny=False, logger=rng.choice("nnnncl"), level=rng.choice([0, 0, 2, 3, 4, 5]))
         ctx.case(cfg, record=False)
         v6 = (n + ctx.shard) % 2 == 1
         e = gen.endp(rng, cfg, v6, own_src=0.03)
